@@ -1552,7 +1552,15 @@ public:
 
       if (crab_domain_params_man::get().region_tag_analysis()) {
         if (val.is_variable()) {
-          m_tag_env.set(rgn, m_tag_env.at(val.get_variable()));
+          if (num_refs.is_zero() || num_refs.is_one()) {
+            m_tag_env.set(rgn, m_tag_env.at(val.get_variable()));
+          } else {
+            // The update is strong only because nothing has been
+            // written yet: add_tag may already have tagged other
+            // objects of the region.
+            m_tag_env.set(rgn, m_tag_env.at(rgn) |
+                                   m_tag_env.at(val.get_variable()));
+          }
         }
       }
 
